@@ -18,6 +18,24 @@ CLAIMED = {
             "static analysis: available-facts must-dataflow + predicate-abstraction path states on LLVM IR (custom checker)", "DESIGN.md §3 C12, §2 E2"),
 }
 
+CLAIMED["C07"] = ("other",
+    "Static path analysis of the verdict wiring, for all archives at once: do_decode returns non-zero only under 'decoded length == header length' "
+    "and 'running CRC == header CRC' (both full width) after reading to exhaustion; the decoder's getters return its counters unmodified; "
+    "lha_reader_check / lha_reader_extract forward exactly that verdict; the CLI status starts at 1, drops to 0 on any failing member, 'Tested'/'Melted' "
+    "are printed only under success and main returns the negation of the status; plus the C14 identity rules (CRC and length are taken over exactly the "
+    "bytes handed out). The suite never alters a recorded CRC or length, so replacing the final comparison passes it; here it changes the facts at the "
+    "return and is reported. Does not decide that the decoders produce the right bytes (C01-C04); the CRC arithmetic is C17.",
+    "Trusted: clang 14 front end; LLVM sroa/early-cse; irx; the Python fact engine. Burst detection for stored members follows from C17 (CRC-16/ARC generator, degree 16, non-zero constant term) and is argued in DESIGN, not machine-checked here.",
+    "static analysis: available-facts must-dataflow, value-provenance (sources) and guarded-site rules on LLVM IR (custom checker)", "DESIGN.md §3 C07")
+CLAIMED["C14"] = ("other",
+    "Static provenance analysis of lib/lha_decoder.c: the count returned by lha_decoder_read, the increment of the stream position and the length handed to the CRC "
+    "routine are the same SSA value and count exactly the bytes memcpy'd into the caller's buffer from offset 0; the request is clamped to declared length - position; "
+    "each copy is min(buffered, remaining request); the cursor advances by the bytes copied and is reset only on refill; progress blocks rise by exactly one per callback. "
+    "Decides the clauses 'reported length equals bytes returned', 'CRC is over exactly those bytes', 'never exceeds the declared length' structurally. "
+    "Not decided: split-invariance as an equality over read histories.",
+    "Trusted: clang 14 front end; LLVM sroa/early-cse; irx; the Python fact engine.",
+    "static analysis: SSA value-identity and provenance rules + available facts on LLVM IR (custom checker)", "DESIGN.md §3 C14")
+
 NOT_APPLICABLE = {
     "C01": "decode exactness is an equality of runtime byte streams produced by table-driven Huffman state machines; no structural clause is a necessary condition the tests leave open (DESIGN §4)",
     "C02": "lock-step of the adaptive -lh1- tree with LZHUF is an equality over runtime symbol histories (tie-break order, rebuild threshold are value computations); not decidable by static analysis in reach (DESIGN §4)",
